@@ -79,6 +79,15 @@ def epat(t):
     if k == 'mono':
         from sc3.seq.patterns.eventpatterns import Pmono
         return Pmono(t[1], binds(t[3]), bool(t[2]))
+    if k == 'monop':
+        from sc3.seq.patterns.eventpatterns import Pmono
+        return Pmono(t[1], binds(t[2]))
+    if k == 'seq':
+        from sc3.seq.patterns.listpatterns import Pseq
+        return Pseq([epat(x) for x in t[1:]], 1)
+    if k == 'pn':
+        from sc3.seq.patterns.filterpatterns import Pn
+        return Pn(epat(t[2]), int(t[1]))
     if k == 'par':
         return Ppar(*[epat(x) for x in t[1:]])
     if k == 'dur':
